@@ -27,47 +27,119 @@
     back      after the drain B's counters are in range, B has something to acknowledge, and `r.ai` is the index of
               the last datagram of B's flush,
     sched     the scheduling hypothesis `Sched su` of the theorem at hand:
-                `SchedCount ch q su`  H4 (the flush carries only channel `ch` and acks) and H2 for the `q` oldest
-                                      entries: `backlog (unacked.take q) ≤ availAtTurn su.a ch`;
-                `SchedBytes ch B su`  H4 and `B ≤ availAtTurn su.a ch`;
+                `SchedBytes ch B su`  H4 (the flush carries only channel `ch` and acks) and H2 in the form
+                                      `B ≤ availAtTurn su.a ch` (at least `B` bytes are left at the channel's turn);
+                `SchedCount ch q su`  H4 and H2 for the `q` oldest entries: `backlog (unacked.take q) ≤ availAtTurn`;
                 nothing               for a configuration whose only A → B channel is `ch` (`Single cfg ch`): there
                                       `availAtTurn = available_bytes_per_tick` and H4 is automatic.
   The side conditions of later rounds are stated as implications (`∀ v, s.run (r.ops ch) = some v → …`): that the run
-  does not panic is a CONCLUSION.
+  does not panic is a CONCLUSION.  They are decidable on concrete states (`roundsb`, `rounds_of_b`).
 
-  WHAT "THE BUDGET ADMITS A MESSAGE" MEANS.  The unit is the ENTRY of A's `unacked` map (`entryCost`, C01L): a small
-  message costs its length; a sliced message costs `SLICE_SIZE` per slice not yet acknowledged — the code admits a
-  slice only while `available_bytes ≥ SLICE_SIZE`.  An entry is covered by a round when the budget left at the
-  channel's turn (`availAtTurn`) covers it together with all entries with smaller ids.  Entry costs never grow
-  (`full_round`: every entry left is one of the uncovered ones, at most as expensive as before).
+  WHAT "THE BUDGET COVERS A MESSAGE" MEANS.  `backlog` (C01L) counts a small message with its length and a sliced
+  message with `SLICE_SIZE` per slice not yet acknowledged — the code accepts a slice only while
+  `available_bytes ≥ SLICE_SIZE`, whatever its real length.  The UNITS of transmission are the small messages and the
+  single slices, in id order, the slices of one message in the order of its slice loop (from the round-robin cursor);
+  every unit costs at most `SLICE_SIZE`.  A flush that is offered `B` bytes emits the longest prefix of units whose
+  cost fits (`getPackets_cover_part`) — all of them, or so many that less than one unit of budget is unused.  A sliced
+  message larger than the budget is thus sent over several rounds; what was acknowledged is not sent again.
 
-  RESULTS (ReliableOrdered channel).
+  RESULTS (ReliableOrdered channel unless said otherwise).
+    k_round_delivery         every round offers the channel at least `B ≥ SLICE_SIZE` bytes: after `k ≥ 1` rounds with
+                             `k * (B - SLICE_SIZE + 1) ≥ backlog`, `obtained = submitted`, in order, nothing panicked,
+                             nobody disconnected.  ANY messages, small or sliced.
+    k_round_delivery_single  the same for a single-channel configuration: `B = available_bytes_per_tick ≥ SLICE_SIZE`,
+                             no H2/H4 hypothesis at all.
+    k_round_delivery_cost    sharper when all stored entries are cheap: every entry costs at most `c`, every round
+                             offers at least `B ≥ c` bytes (`B < SLICE_SIZE` allowed): `k * (B - c + 1) ≥ backlog`.
+    k_round_delivery_entries counting entries instead of bytes: every round covers the `q ≥ 1` oldest entries (q = 1:
+                             "the budget covers the oldest stored message"): `k * q ≥` number of stored entries.
+    k_round_delivery_unordered
+                             ReliableUnordered channel, same hypotheses and bound as `k_round_delivery`: `obtained`
+                             is a permutation of `submitted` (C02's liveness clause).  (All of LivenessK is generic in
+                             the channel kind — `KindOf`, `Delivered` —; only this instance is restated here.)
     full_round               one full round covering the `q` oldest entries: both endpoints stay live, H3 is kept,
                              `obtained` stays a prefix of `submitted`, only uncovered entries remain in A's `unacked`,
                              none more expensive; if all entries were covered, `obtained = submitted`.
-    k_round_delivery         every round covers the `q ≥ 1` oldest entries (q = 1: "the budget admits the oldest stored
-                             message"): after `k ≥ 1` rounds with `k * q ≥` number of stored entries,
-                             `obtained = submitted`, in order, nothing panicked, nobody disconnected.
-    k_round_delivery_bytes   every entry costs at most `c`, every round offers the channel at least `B ≥ c` bytes: a
-                             round that does not finish shrinks the backlog by at least `B - c + 1` bytes (the greedy
-                             prefix leaves less than one entry of budget unused), so `k ≥ 1` rounds with
-                             `k * (B - c + 1) ≥ backlog` suffice.
-    k_round_delivery_single  the same for a single-channel configuration: `B = available_bytes_per_tick`, no H2/H4.
 
   NOT PROVED (what the names do not promise).
-    * Per-SLICE progress.  A sliced entry is credited only when ALL its un-acknowledged slices fit in one round's budget
-      (`entryCost ≤ availAtTurn`).  The code does send a sliced message slice by slice over several ticks (see `ExK`
-      below: round 1 carries slice 0 of the 2-slice message although the entry does not fit, and the acknowledgement
-      lowers its cost to one slice for round 2), but a message with more un-acknowledged slices than
-      `availAtTurn / SLICE_SIZE` is outside the hypotheses.  Missing: slice-level versions of `Live.flush_covers`
-      (which slices of a partially covered entry the round-robin cursor emits) and of `Live.acks_release_prefix`.
-    * ReliableUnordered channels: C01L has no prefix form of the round for them, so nothing is iterated.
+    * Tightness.  A round is credited with `B - SLICE_SIZE + 1` bytes (resp. `B - c + 1`), the worst case of the greedy
+      prefix, not with what it really carried; `ExS` and `ExB` below finish one round before the bound.
     * The `back` side condition `pendingAcks ≠ []` is assumed per round, not derived (it holds whenever B received a
-      datagram it has not seen acknowledged; checked by evaluation in the examples).
+      datagram it has not seen acknowledged; checked by evaluation in the examples); likewise the counter conditions
+      are assumed per round rather than derived from a bound on the initial counters.
 -/
 import RenetVerif.Lemmas.LivenessK
 namespace RenetVerif.C01K
 open RenetVerif C RenetVerif.System RenetVerif.Live RenetVerif.LiveK
+
+/-- **C01 liveness, k rounds (bytes, any messages).**  From any reachable state with both endpoints live and room at B
+    (H3): if every one of the full lossless rounds `rs` offers channel `ch` at least `B ≥ SLICE_SIZE` bytes at its turn
+    and carries nothing else (`SchedBytes`), then after `k = rs.length ≥ 1` rounds with
+    `k * (B - SLICE_SIZE + 1) ≥ backlog` nothing has panicked, both endpoints are live, and B's application has
+    obtained exactly the submitted messages, in order. -/
+theorem k_round_delivery (cfg : Cfg) (ops : List SysOp) (s : Sys) (hr : (Sys.init cfg).run ops = some s)
+    (hda : s.a.isDisconnected = false) (hdb : s.b.isDisconnected = false)
+    (ch : Nat) (ho : cfg.Ordered ch) (sA : SendRel) (hfA : SMap.find? s.a.sendRel ch = some sA)
+    (rB : RecvRel) (hfB : SMap.find? s.b.recvRel ch = some rB) (H3 : Room (s.submitted ch) rB)
+    (B : Nat) (hSB : SLICE_SIZE ≤ B)
+    (rs : List RoundP) (hR : Rounds cfg ch (SchedBytes ch B) s rs)
+    (hk1 : rs ≠ []) (hk : backlog sA.unacked ≤ rs.length * (B - SLICE_SIZE + 1)) :
+    ∃ u, s.run (roundsOps ch rs) = some u ∧ u.a.isDisconnected = false ∧ u.b.isDisconnected = false ∧
+      u.submitted ch = s.submitted ch ∧ u.obtained ch = s.submitted ch :=
+  rounds_bytes_any cfg ops s hr hda hdb ch true ho sA hfA rB hfB H3 B hSB (SchedBytes ch B) (fun _ _ _ h => h) rs hR hk1 hk
+
+/-- **C01 liveness, k rounds, single-channel configuration**: the only A → B channel is the ReliableOrdered channel
+    `ch`; the budget is `available_bytes_per_tick ≥ SLICE_SIZE`; no scheduling hypothesis is left (`Sched = True`). -/
+theorem k_round_delivery_single (cfg : Cfg) (ops : List SysOp) (s : Sys) (hr : (Sys.init cfg).run ops = some s)
+    (hda : s.a.isDisconnected = false) (hdb : s.b.isDisconnected = false)
+    (ch : Nat) (hsingle : Single cfg ch) (sA : SendRel) (hfA : SMap.find? s.a.sendRel ch = some sA)
+    (rB : RecvRel) (hfB : SMap.find? s.b.recvRel ch = some rB) (H3 : Room (s.submitted ch) rB)
+    (hSB : SLICE_SIZE ≤ cfg.budget)
+    (rs : List RoundP) (hR : Rounds cfg ch (fun _ => True) s rs)
+    (hk1 : rs ≠ []) (hk : backlog sA.unacked ≤ rs.length * (cfg.budget - SLICE_SIZE + 1)) :
+    ∃ u, s.run (roundsOps ch rs) = some u ∧ u.a.isDisconnected = false ∧ u.b.isDisconnected = false ∧
+      u.submitted ch = s.submitted ch ∧ u.obtained ch = s.submitted ch :=
+  rounds_bytes_any_single cfg ops s hr hda hdb ch hsingle sA hfA rB hfB H3 hSB rs hR hk1 hk
+
+/-- **C02 liveness, k rounds (ReliableUnordered channel).**  The same bound: every round offers channel `ch` at least
+    `B ≥ SLICE_SIZE` bytes; after `k ≥ 1` rounds with `k * (B - SLICE_SIZE + 1) ≥ backlog` B's application has
+    obtained every submitted message exactly once (a permutation of the submission log). -/
+theorem k_round_delivery_unordered (cfg : Cfg) (ops : List SysOp) (s : Sys) (hr : (Sys.init cfg).run ops = some s)
+    (hda : s.a.isDisconnected = false) (hdb : s.b.isDisconnected = false)
+    (ch : Nat) (ho : cfg.Unordered ch) (sA : SendRel) (hfA : SMap.find? s.a.sendRel ch = some sA)
+    (rB : RecvRel) (hfB : SMap.find? s.b.recvRel ch = some rB) (H3 : Room (s.submitted ch) rB)
+    (B : Nat) (hSB : SLICE_SIZE ≤ B)
+    (rs : List RoundP) (hR : Rounds cfg ch (SchedBytes ch B) s rs)
+    (hk1 : rs ≠ []) (hk : backlog sA.unacked ≤ rs.length * (B - SLICE_SIZE + 1)) :
+    ∃ u, s.run (roundsOps ch rs) = some u ∧ u.a.isDisconnected = false ∧ u.b.isDisconnected = false ∧
+      u.submitted ch = s.submitted ch ∧ (u.obtained ch).Perm (s.submitted ch) :=
+  rounds_bytes_any cfg ops s hr hda hdb ch false ho sA hfA rB hfB H3 B hSB (SchedBytes ch B) (fun _ _ _ h => h) rs hR hk1 hk
+
+/-- **k rounds, cheap entries.**  Every stored entry costs at most `c` bytes and every round offers channel `ch` at
+    least `B ≥ c` bytes: `k = rs.length ≥ 1` rounds with `k * (B - c + 1) ≥ backlog` deliver everything. -/
+theorem k_round_delivery_cost (cfg : Cfg) (ops : List SysOp) (s : Sys) (hr : (Sys.init cfg).run ops = some s)
+    (hda : s.a.isDisconnected = false) (hdb : s.b.isDisconnected = false)
+    (ch : Nat) (ho : cfg.Ordered ch) (sA : SendRel) (hfA : SMap.find? s.a.sendRel ch = some sA)
+    (rB : RecvRel) (hfB : SMap.find? s.b.recvRel ch = some rB) (H3 : Room (s.submitted ch) rB)
+    (B c : Nat) (hcB : c ≤ B) (hcost : ∀ x ∈ sA.unacked, entryCost x.2 ≤ c)
+    (rs : List RoundP) (hR : Rounds cfg ch (SchedBytes ch B) s rs)
+    (hk1 : rs ≠ []) (hk : backlog sA.unacked ≤ rs.length * (B - c + 1)) :
+    ∃ u, s.run (roundsOps ch rs) = some u ∧ u.a.isDisconnected = false ∧ u.b.isDisconnected = false ∧
+      u.submitted ch = s.submitted ch ∧ u.obtained ch = s.submitted ch :=
+  rounds_bytes cfg ops s hr hda hdb ch true ho sA hfA rB hfB H3 B c hcB hcost (SchedBytes ch B) (fun _ _ _ h => h) rs hR hk1 hk
+
+/-- **k rounds, entry count.**  Every round offers channel `ch` a budget that covers the `q` oldest entries of A's
+    `unacked` (`SchedCount`; `q = 1`: the oldest stored message): `k = rs.length ≥ 1` rounds with `k * q ≥` number of
+    stored entries deliver everything. -/
+theorem k_round_delivery_entries (cfg : Cfg) (ops : List SysOp) (s : Sys) (hr : (Sys.init cfg).run ops = some s)
+    (hda : s.a.isDisconnected = false) (hdb : s.b.isDisconnected = false)
+    (ch : Nat) (ho : cfg.Ordered ch) (sA : SendRel) (hfA : SMap.find? s.a.sendRel ch = some sA)
+    (rB : RecvRel) (hfB : SMap.find? s.b.recvRel ch = some rB) (H3 : Room (s.submitted ch) rB)
+    (q : Nat) (rs : List RoundP) (hR : Rounds cfg ch (SchedCount ch q) s rs)
+    (hk1 : rs ≠ []) (hk : sA.unacked.length ≤ rs.length * q) :
+    ∃ u, s.run (roundsOps ch rs) = some u ∧ u.a.isDisconnected = false ∧ u.b.isDisconnected = false ∧
+      u.submitted ch = s.submitted ch ∧ u.obtained ch = s.submitted ch :=
+  rounds_count cfg ops s hr hda hdb ch true ho sA hfA rB hfB H3 q rs hR hk1 hk
 
 /-- **One full lossless round** covering the `q` oldest entries of A's `unacked` on channel `ch`. -/
 theorem full_round (cfg : Cfg) (ops : List SysOp) (s : Sys) (hr : (Sys.init cfg).run ops = some s)
@@ -89,60 +161,73 @@ theorem full_round (cfg : Cfg) (ops : List SysOp) (s : Sys) (hr : (Sys.init cfg)
       (∃ rB', SMap.find? v.b.recvRel ch = some rB' ∧ Room (s.submitted ch) rB') ∧
       (∃ sA', SMap.find? v.a.sendRel ch = some sA' ∧
         ∀ x ∈ sA'.unacked, ∃ u0, (x.1, u0) ∈ sA.unacked.drop q ∧ entryCost x.2 ≤ entryCost u0) ∧
-      (sA.unacked.drop q = [] → v.obtained ch = s.submitted ch) :=
-  LiveK.full_round cfg ops s hr hda hdb ch ho sA hfA rB hfB H3 dt hdt su hsu hc hcA q H2 H4 ks hks1 hks2 n hn hcap ai hB
-
-/-- **C01 liveness, k rounds (entry count).**  From any reachable state with both endpoints live and room at B (H3):
-    if every one of the full lossless rounds `rs` offers channel `ch` a budget that covers the `q` oldest entries of
-    A's `unacked` (`SchedCount`; `q = 1`: the oldest stored message), then after `k = rs.length ≥ 1` rounds with
-    `k * q ≥` number of stored entries nothing has panicked, both endpoints are live, and B's application has
-    obtained exactly the submitted messages, in order. -/
-theorem k_round_delivery (cfg : Cfg) (ops : List SysOp) (s : Sys) (hr : (Sys.init cfg).run ops = some s)
-    (hda : s.a.isDisconnected = false) (hdb : s.b.isDisconnected = false)
-    (ch : Nat) (ho : cfg.Ordered ch) (sA : SendRel) (hfA : SMap.find? s.a.sendRel ch = some sA)
-    (rB : RecvRel) (hfB : SMap.find? s.b.recvRel ch = some rB) (H3 : Room (s.submitted ch) rB)
-    (q : Nat) (rs : List RoundP) (hR : Rounds cfg ch (SchedCount ch q) s rs)
-    (hk1 : rs ≠ []) (hk : sA.unacked.length ≤ rs.length * q) :
-    ∃ u, s.run (roundsOps ch rs) = some u ∧ u.a.isDisconnected = false ∧ u.b.isDisconnected = false ∧
-      u.submitted ch = s.submitted ch ∧ u.obtained ch = s.submitted ch :=
-  rounds_count cfg ops s hr hda hdb ch ho sA hfA rB hfB H3 q rs hR hk1 hk
-
-/-- **C01 liveness, k rounds (bytes).**  Every stored entry costs at most `c` bytes and every round offers channel
-    `ch` at least `B ≥ c` bytes (`SchedBytes`): `k = rs.length ≥ 1` rounds with `k * (B - c + 1) ≥ backlog` deliver
-    everything. -/
-theorem k_round_delivery_bytes (cfg : Cfg) (ops : List SysOp) (s : Sys) (hr : (Sys.init cfg).run ops = some s)
-    (hda : s.a.isDisconnected = false) (hdb : s.b.isDisconnected = false)
-    (ch : Nat) (ho : cfg.Ordered ch) (sA : SendRel) (hfA : SMap.find? s.a.sendRel ch = some sA)
-    (rB : RecvRel) (hfB : SMap.find? s.b.recvRel ch = some rB) (H3 : Room (s.submitted ch) rB)
-    (B c : Nat) (hcB : c ≤ B) (hcost : ∀ x ∈ sA.unacked, entryCost x.2 ≤ c)
-    (rs : List RoundP) (hR : Rounds cfg ch (SchedBytes ch B) s rs)
-    (hk1 : rs ≠ []) (hk : backlog sA.unacked ≤ rs.length * (B - c + 1)) :
-    ∃ u, s.run (roundsOps ch rs) = some u ∧ u.a.isDisconnected = false ∧ u.b.isDisconnected = false ∧
-      u.submitted ch = s.submitted ch ∧ u.obtained ch = s.submitted ch :=
-  rounds_bytes cfg ops s hr hda hdb ch ho sA hfA rB hfB H3 B c hcB hcost (SchedBytes ch B) (fun _ _ _ h => h) rs hR hk1 hk
-
-/-- **C01 liveness, k rounds, single-channel configuration**: the only A → B channel is the ReliableOrdered channel
-    `ch`; the budget is `available_bytes_per_tick`; no scheduling hypothesis is left (`Sched = True`). -/
-theorem k_round_delivery_single (cfg : Cfg) (ops : List SysOp) (s : Sys) (hr : (Sys.init cfg).run ops = some s)
-    (hda : s.a.isDisconnected = false) (hdb : s.b.isDisconnected = false)
-    (ch : Nat) (hsingle : Single cfg ch) (sA : SendRel) (hfA : SMap.find? s.a.sendRel ch = some sA)
-    (rB : RecvRel) (hfB : SMap.find? s.b.recvRel ch = some rB) (H3 : Room (s.submitted ch) rB)
-    (c : Nat) (hcB : c ≤ cfg.budget) (hcost : ∀ x ∈ sA.unacked, entryCost x.2 ≤ c)
-    (rs : List RoundP) (hR : Rounds cfg ch (fun _ => True) s rs)
-    (hk1 : rs ≠ []) (hk : backlog sA.unacked ≤ rs.length * (cfg.budget - c + 1)) :
-    ∃ u, s.run (roundsOps ch rs) = some u ∧ u.a.isDisconnected = false ∧ u.b.isDisconnected = false ∧
-      u.submitted ch = s.submitted ch ∧ u.obtained ch = s.submitted ch :=
-  rounds_bytes_single cfg ops s hr hda hdb ch hsingle sA hfA rB hfB H3 c hcB hcost rs hR hk1 hk
+      (sA.unacked.drop q = [] → v.obtained ch = s.submitted ch) := by
+  obtain ⟨v, h1, h2, h3, h4, h5, h6, h7, ⟨sA', hf', -, hemb, -, -⟩, h9⟩ :=
+    LiveK.full_round cfg ops s hr hda hdb ch true ho sA hfA rB hfB H3 dt hdt su hsu hc hcA q H2 H4 ks hks1 hks2 n hn hcap ai hB
+  refine ⟨v, h1, h2, h3, h4, h5, h6 rfl, h7, ⟨sA', hf', ?_⟩, h9⟩
+  intro x hx
+  obtain ⟨u0, h0, hs0⟩ := hemb x hx
+  exact ⟨u0, h0, entryCost_le_of_shrunk hs0⟩
 
 /-! ## non-vacuity: concrete runs evaluated by the kernel
 
-  `ExK` — the configuration of `C01L.ExP`: one ReliableOrdered channel (id 0) each way, 1300 bytes per tick, resend time
-  100 ns.  A submits a 3-byte message (entry 0, cost 3) and a 1300-byte message (entry 1: two slices, cost 2400).  The
-  backlog (2403 bytes) exceeds the budget; two entries are stored, every round covers the oldest one (`q = 1`), so
-  `k = 2` rounds are needed and suffice.
-  Round 1 = `updA 1000 ; flushA (outA[0], outA[1]) ; deliverToB 0, 1 ; recvB 0 twice ; flushB (outB[0]) ; deliverToA 0`;
-  round 2 the same with `outA[2]`, `outA[3]` and `outB[1]`.  (In round 2 entry 1 costs only 1200 bytes: round 1 carried
-  its slice 0 in the 1297 bytes left over, and B acknowledged it.) -/
+  `ExS` — single-channel configuration (ReliableOrdered channel 0 each way), 3000 bytes per tick, resend time 100 ns.
+  A submits a 3-byte message (cost 3) and a 3700-byte message (4 slices, cost 4800): backlog 4803 > 3000.  The sliced
+  entry NEVER fits into one tick's budget; it is sent over two rounds, two slices each.
+  `k_round_delivery_single`: `k * (3000 - 1200 + 1) ≥ 4803` holds for `k = 3`.
+  Round 1 = `updA 1000 ; flushA (outA[0..2]: the small packet, slices 0, 1) ; deliverToB 0, 1, 2 ; recvB 0 twice ;
+  flushB (outB[0]) ; deliverToA 0`; round 2 carries slices 2, 3 and A's ack packet (`outA[3..5]`, `outB[1]`) and
+  completes the delivery; round 3 finds only A's ack packet to send (`outA[6]`, `outB[2]`). -/
+namespace ExS
+
+def cfg : Cfg := ⟨3000, [⟨0, .ordered, 100000, 100⟩], [⟨0, .ordered, 100000, 100⟩]⟩
+def m0 : Bytes := [1, 2, 3]
+def m1 : Bytes := List.replicate 3600 7 ++ List.replicate 100 9
+def ops : List SysOp := [.sendA 0 m0, .sendA 0 m1]
+def r1 : RoundP := ⟨1000, [0, 1, 2], 2, 0⟩
+def r2 : RoundP := ⟨1000, [3, 4, 5], 2, 1⟩
+def r3 : RoundP := ⟨1000, [6], 2, 2⟩
+
+def s : Sys := ((Sys.init cfg).run ops).getD (Sys.init cfg)
+theorem run_s : (Sys.init cfg).run ops = some s := some_getD (by decide +kernel) _
+def sA : SendRel := (SMap.find? s.a.sendRel 0).getD (SendRel.new 0 0 0)
+theorem find_sA : SMap.find? s.a.sendRel 0 = some sA := some_getD (by decide +kernel) _
+def rB : RecvRel := (SMap.find? s.b.recvRel 0).getD (RecvRel.new 0 true)
+theorem find_rB : SMap.find? s.b.recvRel 0 = some rB := some_getD (by decide +kernel) _
+
+theorem single0 : Single cfg 0 := ⟨_, _, rfl⟩
+
+/-- the standing hypotheses, and the numbers: backlog 4803 > 3000 = budget; the sliced entry alone costs 4800 -/
+theorem start : s.a.isDisconnected = false ∧ s.b.isDisconnected = false ∧ Room (s.submitted 0) rB ∧
+    backlog sA.unacked = 4803 ∧ sA.unacked.map (fun x => (x.1, entryCost x.2)) = [(0, 3), (1, 4800)] ∧
+    availAtTurn s.a 0 = 3000 ∧ s.submitted 0 = [m0, m1] ∧ s.obtained 0 = [] := by decide +kernel
+
+/-- the side conditions of the three rounds (timer, drain, counters, lossless delivery, ack cap, the way back), each
+    checked in the state the run reaches -/
+theorem rounds : Rounds cfg 0 (fun _ => True) s [r1, r2, r3] :=
+  rounds_of_b (schedb := fun _ => true) (fun _ _ => trivial) _ _ (by decide +kernel)
+
+/-- **`k_round_delivery_single` applied with `k = 3`**: `4803 ≤ 3 * (3000 - 1200 + 1)` -/
+theorem delivered : ∃ u, s.run (roundsOps 0 [r1, r2, r3]) = some u ∧ u.a.isDisconnected = false ∧
+    u.b.isDisconnected = false ∧ u.submitted 0 = s.submitted 0 ∧ u.obtained 0 = s.submitted 0 :=
+  k_round_delivery_single cfg ops s run_s start.1 start.2.1 0 single0 sA find_sA rB find_rB start.2.2.1 (by decide)
+    [r1, r2, r3] rounds (by simp) (by rw [start.2.2.2.1]; decide)
+
+/-- what the kernel computes for that run: after round 1 `[m0]` is obtained and A still stores entry 1 at the cost of
+    two slices; after round 2 both messages are obtained and A stores nothing -/
+example : (s.run (roundsOps 0 [r1])).map (fun u => (u.obtained 0,
+      (SMap.find? u.a.sendRel 0).map (fun x => x.unacked.map (fun e => (e.1, entryCost e.2))))) =
+      some ([m0], some [(1, 2400)]) ∧
+    (s.run (roundsOps 0 [r1, r2])).map (fun u => (u.obtained 0, (SMap.find? u.a.sendRel 0).map (·.unacked.length))) =
+      some ([m0, m1], some 0) := by decide +kernel
+
+end ExS
+
+/-! `ExK` — the configuration of `C01L.ExP`: 1300 bytes per tick; A submits a 3-byte message (entry 0, cost 3) and a
+    1300-byte message (entry 1: two slices, cost 2400).  The backlog (2403 bytes) exceeds the budget; two entries are
+    stored, every round covers the oldest one (`q = 1`), so `k_round_delivery_entries` gives `k = 2` rounds.
+    (In round 2 entry 1 costs only 1200 bytes: round 1 carried its slice 0 in the 1297 bytes left over, and B
+    acknowledged it.  The byte bound `k_round_delivery` would ask for `k * 101 ≥ 2403` here.) -/
 namespace ExK
 
 def cfg : Cfg := ⟨1300, [⟨0, .ordered, 100000, 100⟩], [⟨0, .ordered, 100000, 100⟩]⟩
@@ -161,25 +246,20 @@ theorem find_rB : SMap.find? s.b.recvRel 0 = some rB := some_getD (by decide +ke
 
 theorem ordered0 : cfg.Ordered 0 := ⟨⟨_, List.mem_singleton.mpr rfl, rfl, rfl⟩, by decide⟩
 
-/-- the standing hypotheses, and the numbers: 2 entries stored, backlog 2403 > 1300 = budget -/
 theorem start : s.a.isDisconnected = false ∧ s.b.isDisconnected = false ∧ Room (s.submitted 0) rB ∧
     sA.unacked.length = 2 ∧ backlog sA.unacked = 2403 ∧ availAtTurn s.a 0 = 1300 ∧
     s.submitted 0 = [m0, m1] ∧ s.obtained 0 = [] := by decide +kernel
 
-/-- the side conditions of both rounds (timer, drain, counters, H2 for the oldest entry, H4, lossless delivery, ack
-    cap, the way back), each checked in the state the run reaches -/
+/-- the side conditions of both rounds, H2 for the oldest entry and H4 among them -/
 theorem rounds : Rounds cfg 0 (SchedCount 0 1) s [r1, r2] :=
   rounds_of_b (schedCount_of_b 0 1) _ _ (by decide +kernel)
 
-/-- **`k_round_delivery` applied with `q = 1`, `k = 2`**: the budget (1300) is smaller than the backlog (2403); after
-    two full rounds B's application has obtained both messages -/
+/-- **`k_round_delivery_entries` applied with `q = 1`, `k = 2`** -/
 theorem delivered : ∃ u, s.run (roundsOps 0 [r1, r2]) = some u ∧ u.a.isDisconnected = false ∧
     u.b.isDisconnected = false ∧ u.submitted 0 = s.submitted 0 ∧ u.obtained 0 = s.submitted 0 :=
-  k_round_delivery cfg ops s run_s start.1 start.2.1 0 ordered0 sA find_sA rB find_rB start.2.2.1 1 [r1, r2] rounds
-    (by simp) (by rw [start.2.2.2.1]; decide)
+  k_round_delivery_entries cfg ops s run_s start.1 start.2.1 0 ordered0 sA find_sA rB find_rB start.2.2.1 1 [r1, r2]
+    rounds (by simp) (by rw [start.2.2.2.1]; decide)
 
-/-- what the kernel computes for that run: after round 1 `[m0]` is obtained and A still stores entry 1, now at the
-    cost of one slice; after round 2 `[m0, m1]` is obtained and A stores nothing -/
 example : (s.run (roundsOps 0 [r1])).map (fun u => (u.obtained 0,
       (SMap.find? u.a.sendRel 0).map (fun x => x.unacked.map (fun e => (e.1, entryCost e.2))))) =
       some ([m0], some [(1, 1200)]) ∧
@@ -188,10 +268,10 @@ example : (s.run (roundsOps 0 [r1])).map (fun u => (u.obtained 0,
 
 end ExK
 
-/-! `ExB` — single-channel configuration, 1000 bytes per tick; A submits five 400-byte messages: backlog 2000 bytes,
-    every entry costs `c = 400`.  `k_round_delivery_single`: `k * (1000 - 400 + 1) ≥ 2000` holds for `k = 4`.
+/-! `ExB` — 1000 bytes per tick (less than one slice); A submits five 400-byte messages: backlog 2000 bytes, every entry
+    costs `c = 400`.  `k_round_delivery_cost` with `B = 1000`: `k * (1000 - 400 + 1) ≥ 2000` holds for `k = 4`.
     (The run needs three rounds — two messages fit per tick, packed into one datagram —; the fourth finds nothing left
-    to send but A's ack packet.)  The same rounds satisfy `k_round_delivery` with `q = 2`: `3 * 2 ≥ 5`. -/
+    to send but A's ack packet.)  The first three rounds satisfy `k_round_delivery_entries` with `q = 2`: `3 * 2 ≥ 5`. -/
 namespace ExB
 
 def cfg : Cfg := ⟨1000, [⟨0, .ordered, 100000, 100⟩], [⟨0, .ordered, 100000, 100⟩]⟩
@@ -209,28 +289,28 @@ theorem find_sA : SMap.find? s.a.sendRel 0 = some sA := some_getD (by decide +ke
 def rB : RecvRel := (SMap.find? s.b.recvRel 0).getD (RecvRel.new 0 true)
 theorem find_rB : SMap.find? s.b.recvRel 0 = some rB := some_getD (by decide +kernel) _
 
-theorem single0 : Single cfg 0 := ⟨_, _, rfl⟩
+theorem ordered0 : cfg.Ordered 0 := ⟨⟨_, List.mem_singleton.mpr rfl, rfl, rfl⟩, by decide⟩
 
 theorem start : s.a.isDisconnected = false ∧ s.b.isDisconnected = false ∧ Room (s.submitted 0) rB ∧
     sA.unacked.length = 5 ∧ backlog sA.unacked = 2000 ∧ (∀ x ∈ sA.unacked, entryCost x.2 ≤ 400) ∧
     s.obtained 0 = [] := by decide +kernel
 
-theorem rounds4 : Rounds cfg 0 (fun _ => True) s [r1, r2, r3, r4] :=
-  rounds_of_b (schedb := fun _ => true) (fun _ _ => trivial) _ _ (by decide +kernel)
+theorem rounds4 : Rounds cfg 0 (SchedBytes 0 1000) s [r1, r2, r3, r4] :=
+  rounds_of_b (schedBytes_of_b 0 1000) _ _ (by decide +kernel)
 
-/-- **`k_round_delivery_single` applied with `c = 400`, `k = 4`**: `2000 ≤ 4 * (1000 - 400 + 1)` -/
+/-- **`k_round_delivery_cost` applied with `B = 1000`, `c = 400`, `k = 4`**: `2000 ≤ 4 * (1000 - 400 + 1)` -/
 theorem delivered : ∃ u, s.run (roundsOps 0 [r1, r2, r3, r4]) = some u ∧ u.a.isDisconnected = false ∧
     u.b.isDisconnected = false ∧ u.submitted 0 = s.submitted 0 ∧ u.obtained 0 = s.submitted 0 :=
-  k_round_delivery_single cfg ops s run_s start.1 start.2.1 0 single0 sA find_sA rB find_rB start.2.2.1 400 (by decide)
+  k_round_delivery_cost cfg ops s run_s start.1 start.2.1 0 ordered0 sA find_sA rB find_rB start.2.2.1 1000 400 (by decide)
     start.2.2.2.2.2.1 [r1, r2, r3, r4] rounds4 (by simp) (by rw [start.2.2.2.2.1]; decide)
 
 theorem rounds3 : Rounds cfg 0 (SchedCount 0 2) s [r1, r2, r3] :=
   rounds_of_b (schedCount_of_b 0 2) _ _ (by decide +kernel)
 
-/-- **`k_round_delivery` applied with `q = 2`, `k = 3`**: `5 ≤ 3 * 2` -/
+/-- **`k_round_delivery_entries` applied with `q = 2`, `k = 3`**: `5 ≤ 3 * 2` -/
 theorem delivered3 : ∃ u, s.run (roundsOps 0 [r1, r2, r3]) = some u ∧ u.a.isDisconnected = false ∧
     u.b.isDisconnected = false ∧ u.submitted 0 = s.submitted 0 ∧ u.obtained 0 = s.submitted 0 :=
-  k_round_delivery cfg ops s run_s start.1 start.2.1 0 (single_ordered single0) sA find_sA rB find_rB start.2.2.1 2
+  k_round_delivery_entries cfg ops s run_s start.1 start.2.1 0 ordered0 sA find_sA rB find_rB start.2.2.1 2
     [r1, r2, r3] rounds3 (by simp) (by rw [start.2.2.2.1]; decide)
 
 /-- what the kernel computes: 2, 4, 5 messages obtained after 1, 2, 3 rounds -/
@@ -239,5 +319,47 @@ example : (s.run (roundsOps 0 [r1])).map (fun u => (u.obtained 0).length) = some
     (s.run (roundsOps 0 [r1, r2, r3])).map (fun u => u.obtained 0 == u.submitted 0) = some true := by decide +kernel
 
 end ExB
+
+/-! `ExU` — a ReliableUnordered channel, 3000 bytes per tick.  A submits a 3700-byte message (4 slices), a 3-byte and a
+    2-byte message: backlog 4805.  `k_round_delivery_unordered`: `3 * (3000 - 1200 + 1) ≥ 4805`.  The datagrams of a
+    round are handed over in reverse order, one of them twice in round 2; B's application obtains the two small
+    messages in round 1 and the sliced one in round 2 — a permutation of the submission order. -/
+namespace ExU
+
+def cfg : Cfg := ⟨3000, [⟨0, .unordered, 100000, 100⟩], [⟨0, .ordered, 100000, 100⟩]⟩
+def m0 : Bytes := List.replicate 3600 7 ++ List.replicate 100 9
+def m1 : Bytes := [1, 2, 3]
+def m2 : Bytes := [4, 5]
+def ops : List SysOp := [.sendA 0 m0, .sendA 0 m1, .sendA 0 m2]
+def r1 : RoundP := ⟨1000, [2, 1, 0], 3, 0⟩
+def r2 : RoundP := ⟨1000, [5, 4, 3, 4], 3, 1⟩
+def r3 : RoundP := ⟨1000, [6], 3, 2⟩
+
+def s : Sys := ((Sys.init cfg).run ops).getD (Sys.init cfg)
+theorem run_s : (Sys.init cfg).run ops = some s := some_getD (by decide +kernel) _
+def sA : SendRel := (SMap.find? s.a.sendRel 0).getD (SendRel.new 0 0 0)
+theorem find_sA : SMap.find? s.a.sendRel 0 = some sA := some_getD (by decide +kernel) _
+def rB : RecvRel := (SMap.find? s.b.recvRel 0).getD (RecvRel.new 0 true)
+theorem find_rB : SMap.find? s.b.recvRel 0 = some rB := some_getD (by decide +kernel) _
+
+theorem unordered0 : cfg.Unordered 0 := ⟨⟨_, List.mem_singleton.mpr rfl, rfl, rfl⟩, by decide⟩
+
+theorem start : s.a.isDisconnected = false ∧ s.b.isDisconnected = false ∧ Room (s.submitted 0) rB ∧
+    backlog sA.unacked = 4805 ∧ s.submitted 0 = [m0, m1, m2] ∧ s.obtained 0 = [] := by decide +kernel
+
+theorem rounds : Rounds cfg 0 (SchedBytes 0 3000) s [r1, r2, r3] :=
+  rounds_of_b (schedBytes_of_b 0 3000) _ _ (by decide +kernel)
+
+/-- **`k_round_delivery_unordered` applied with `B = 3000`, `k = 3`** -/
+theorem delivered : ∃ u, s.run (roundsOps 0 [r1, r2, r3]) = some u ∧ u.a.isDisconnected = false ∧
+    u.b.isDisconnected = false ∧ u.submitted 0 = s.submitted 0 ∧ (u.obtained 0).Perm (s.submitted 0) :=
+  k_round_delivery_unordered cfg ops s run_s start.1 start.2.1 0 unordered0 sA find_sA rB find_rB start.2.2.1 3000
+    (by decide) [r1, r2, r3] rounds (by simp) (by rw [start.2.2.2.1]; decide)
+
+/-- what the kernel computes: the small messages after round 1, the sliced one after round 2 -/
+example : (s.run (roundsOps 0 [r1])).map (fun u => u.obtained 0) = some [m1, m2] ∧
+    (s.run (roundsOps 0 [r1, r2])).map (fun u => u.obtained 0) = some [m1, m2, m0] := by decide +kernel
+
+end ExU
 
 end RenetVerif.C01K
